@@ -23,7 +23,7 @@ def run(ctx) -> None:
     ctx.rule("b.rename-atomic", "rename_columns: every raise and every consumption of the name lists precedes the first store "
                                 "to a column name", 1)
     ctx.rule("c.key-forms", "the key dispatch covers bool mask, slice, int, int vector, int list/tuple and ends in raise "
-                            "SerifTypeError; every index is normalised and range-checked BEFORE it enters the update list", 6)
+                            "SerifTypeError; every index is normalised and range-checked BEFORE it enters the update list", 3)
     ctx.rule("d.untouched", "__setitem__ and _promote never store _name / _display_as_row; the vector keeps its length (C02.b)", 2)
     ctx.rule("e.accept-widen-reject", "per (column dtype, running target, value type): reject with SerifTypeError iff no promotion "
                                       "exists, else the value fits the widened target; None makes it nullable (exact, shared with C03.b)", 200)
